@@ -26,6 +26,11 @@ CLAIMED = {
             "Seeded search over histories of 1-6 revisions (redefine / free / re-add; xref table or stream per revision; objects plain or in object streams), every prefix opened through SimSource (fault-free and short reads at every offset) under all four presets and compared object by object with a reference map known by construction; a recovery variant damages the stored xref data so the header scan is used.",
             "Trusts the harness's synthetic PDF writer (sim/simcheck/src/synth.rs) to emit valid files; ground truth is by construction, never read back through the library.",
             "DESIGN.md §4 C04, §2"),
+    "C05": ("exploration",
+            "deterministic simulation: encryption under owned OS entropy / clock / pid, written and read back through fault-injecting byte seams, unencrypted run as reference",
+            "Seeded search over (authoring program x strength x passwords x permission bits x writer configuration x entropy mode incl. all-zero/all-0xFF x source plan x reader preset). Because entropy, clock and pid are owned, each run's salts, file key, file id and IVs are a function of the seed and replay exactly. The unencrypted fault-free view is the reference; the encrypted file must be recognised as encrypted, expose nothing while locked, refuse a wrong password, and give the identical view with either password; permission flags must survive.",
+            "The reference is the library's own reading of the unencrypted document. No independent decryptor is installed (that is C06, not claimed).",
+            "DESIGN.md §4 C05, §1.1"),
     "C19": ("fault_enumeration",
             "deterministic simulation: enumerated stored-image fault catalogue (D1-D12 + sampled pairs) on the xref section, intact run as reference",
             "For every sampled valid file the complete single-damage catalogue (60-110 instances) and sampled ordered pairs are applied to the stored image; each damaged image is opened with recovery enabled (through SimSource, also with short reads) and catalog, page count and every object are compared with the intact image. The library's own tracing event tells whether recovery was entered, which separates the one known root cause (damaged table accepted, recovery never entered) from unfaithful recovery.",
